@@ -355,7 +355,7 @@ func collectGround(x *Sx, into map[ctxKey]map[string]*Sx) {
 				into[key] = m
 			}
 			s := x.L[k].String()
-			if len(s) < 400 {
+			if len(s) < 300 && strings.Count(s, "(sub.") <= 2 {
 				m[s] = x.L[k]
 			}
 		}
@@ -422,8 +422,8 @@ func replaceAt(x *Sx, path []int, r *Sx) *Sx {
 	return &Sx{L: out}
 }
 
-const maxInstPerQuant = 120
-const maxInstTotal = 4000
+const maxInstPerQuant = 300
+const maxInstTotal = 6000
 
 // instantiate performs rounds of context-based instantiation. Returns the added instance assertions.
 func (ic *instCtx) instantiate(asserts []*Sx, rounds int) []*Sx {
@@ -454,11 +454,27 @@ func (ic *instCtx) instantiate(asserts []*Sx, rounds int) []*Sx {
 				for _, n := range names {
 					bound[n] = true
 				}
+				// declared patterns restrict where candidate terms are looked for
+				var patTerms []*Sx
+				if q.L[2].head() == "!" {
+					for k := 2; k+1 < len(q.L[2].L); k += 2 {
+						if q.L[2].L[k].isAtom() && q.L[2].L[k].A == ":pattern" {
+							patTerms = append(patTerms, q.L[2].L[k+1])
+						}
+					}
+				}
 				cands := make([][]*Sx, len(names))
 				ok := true
 				for i, n := range names {
 					ctxs := map[ctxKey]bool{}
-					varContexts(body, n, bound, ctxs)
+					if len(patTerms) > 0 {
+						for _, pt := range patTerms {
+							varContexts(pt, n, bound, ctxs)
+						}
+					}
+					if len(ctxs) == 0 {
+						varContexts(body, n, bound, ctxs)
+					}
 					set := map[string]*Sx{}
 					for c := range ctxs {
 						for s, t := range ground[c] {
@@ -491,7 +507,14 @@ func (ic *instCtx) instantiate(asserts []*Sx, rounds int) []*Sx {
 				if total > maxInstPerQuant {
 					// trim candidate lists evenly (prefer shorter terms: closer to the program's own indices)
 					for i := range cands {
-						sort.SliceStable(cands[i], func(a, b int) bool { return len(cands[i][a].String()) < len(cands[i][b].String()) })
+						sort.SliceStable(cands[i], func(a, b int) bool {
+							sa, sb := cands[i][a].String(), cands[i][b].String()
+							ka, kb := strings.Contains(sa, "sk!"), strings.Contains(sb, "sk!")
+							if ka != kb {
+								return ka // goal-related terms (skolems) first
+							}
+							return len(sa) < len(sb)
+						})
 					}
 					for total > maxInstPerQuant {
 						// drop from the longest list
@@ -601,4 +624,49 @@ func hasQuant(x *Sx) bool {
 		}
 	}
 	return false
+}
+
+// flattenAssert splits an assertion into smaller ones: top-level conjunctions, and disjunctions with a
+// single conjunctive member (guards distributed), so that instantiating one quantifier does not copy its siblings.
+func flattenAssert(x *Sx, out *[]*Sx) {
+	switch x.head() {
+	case "and":
+		for _, c := range x.L[1:] {
+			flattenAssert(c, out)
+		}
+		return
+	case "or":
+		// (or g1 .. gn (and c1 .. cm)) with small guards
+		ai := -1
+		small := true
+		for i, c := range x.L[1:] {
+			if c.head() == "and" {
+				if ai >= 0 {
+					ai = -2
+					break
+				}
+				ai = i + 1
+			} else if len(c.String()) > 200 || hasQuant(c) {
+				small = false
+			}
+		}
+		if ai > 0 && small {
+			for _, c := range x.L[ai].L[1:] {
+				parts := []*Sx{atom("or")}
+				for i, g := range x.L[1:] {
+					if i+1 == ai {
+						continue
+					}
+					parts = append(parts, g)
+				}
+				parts = append(parts, c)
+				flattenAssert(&Sx{L: parts}, out)
+			}
+			return
+		}
+	}
+	if x.isAtom() && x.A == "true" {
+		return
+	}
+	*out = append(*out, x)
 }
